@@ -19,6 +19,7 @@ type Range struct {
 type RangeIterator struct {
 	Range
 	Index Int
+	count Int // items produced so far
 }
 
 var RangeType = NewTypeX("range", `range(stop) -> range object
@@ -83,6 +84,10 @@ func (r *Range) M__getitem__(key Object) (Object, error) {
 		return computeRangeSlice(r, slice)
 	}
 
+	if _, ok := key.(*BigInt); ok {
+		// cannot fit into an index-sized integer: out of range for every range
+		return nil, ExceptionNewf(IndexError, "range object index out of range")
+	}
 	index, err := Index(key)
 	if err != nil {
 		return nil, err
@@ -123,15 +128,15 @@ func (it *RangeIterator) M__iter__() (Object, error) {
 
 // Range iterator next
 func (it *RangeIterator) M__next__() (Object, error) {
+	// count the items: Index + Step may not be representable after the last one
+	if it.count >= it.Length {
+		return nil, StopIteration
+	}
 	r := it.Index
-	if it.Step >= 0 && r >= it.Stop {
-		return nil, StopIteration
+	it.count++
+	if it.count < it.Length {
+		it.Index += it.Step
 	}
-
-	if it.Step < 0 && r <= it.Stop {
-		return nil, StopIteration
-	}
-	it.Index += it.Step
 	return r, nil
 }
 
@@ -159,16 +164,6 @@ func computeRangeLength(start, stop, step Int) Int {
 	return res
 }
 
-func getIndexWithDefault(i Object, d Int) (Int, error) {
-	if i == None {
-		return d, nil
-	} else if res, err := Index(i); err != nil {
-		return 0, err
-	} else {
-		return res, nil
-	}
-}
-
 func computeNegativeIndex(index, length Int) Int {
 	if index < 0 {
 		index += length
@@ -176,60 +171,32 @@ func computeNegativeIndex(index, length Int) Int {
 	return index
 }
 
-func computeBoundIndex(index, length Int) Int {
-	if index < 0 {
-		index = 0
-	} else if index > length {
-		index = length
+func computeRangeSlice(r *Range, s *Slice) (Object, error) {
+	// Normalise the slice against the length of the range exactly as
+	// for any other sequence, then map positions to values
+	start, stop, step, sliceLength, err := s.GetIndices(int(r.Length))
+	if err != nil {
+		return nil, err
 	}
-	return index
+	return &Range{
+		Start:  computeItem(r, Int(start)),
+		Stop:   computeItem(r, Int(stop)),
+		Step:   mulSaturating(Int(step), r.Step),
+		Length: Int(sliceLength),
+	}, nil
 }
 
-func computeRangeSlice(r *Range, s *Slice) (Object, error) {
-	start, err := getIndexWithDefault(s.Start, 0)
-	if err != nil {
-		return nil, err
-	}
-	stop, err := getIndexWithDefault(s.Stop, r.Length)
-	if err != nil {
-		return nil, err
-	}
-	step, err := getIndexWithDefault(s.Step, 1)
-	if err != nil {
-		return nil, err
-	}
-
-	if step == 0 {
-		return nil, ExceptionNewf(ValueError, "slice step cannot be zero")
-	}
-	start = computeNegativeIndex(start, r.Length)
-	stop = computeNegativeIndex(stop, r.Length)
-
-	start = computeBoundIndex(start, r.Length)
-	stop = computeBoundIndex(stop, r.Length)
-
-	startIndex := computeItem(r, start)
-	stopIndex := computeItem(r, stop)
-	stepIndex := step * r.Step
-
-	var sliceLength Int
-	if start < stop {
-		if stepIndex < 0 {
-			startIndex, stopIndex = stopIndex-1, startIndex-1
+// mulSaturating multiplies two Ints, clipping the product instead of
+// wrapping round (FIXME ranges should support BigInts)
+func mulSaturating(a, b Int) Int {
+	p := a * b
+	if a != 0 && (p/a != b || (a == -1 && b == IntMin)) {
+		if (a < 0) != (b < 0) {
+			return IntMin
 		}
-	} else {
-		if stepIndex < 0 {
-			startIndex, stopIndex = stopIndex+1, startIndex+1
-		}
+		return IntMax
 	}
-	sliceLength = computeRangeLength(startIndex, stopIndex, stepIndex)
-
-	return &Range{
-		Start:  startIndex,
-		Stop:   stopIndex,
-		Step:   stepIndex,
-		Length: sliceLength,
-	}, nil
+	return p
 }
 
 // Check interface is satisfied
@@ -254,7 +221,7 @@ func (a *Range) M__eq__(other Object) (Object, error) {
 		return False, nil
 	}
 
-	if a.Step == 1 {
+	if a.Length == 1 {
 		return True, nil
 	}
 	if a.Step != b.Step {
@@ -281,7 +248,7 @@ func (a *Range) M__ne__(other Object) (Object, error) {
 		return True, nil
 	}
 
-	if a.Step == 1 {
+	if a.Length == 1 {
 		return False, nil
 	}
 	if a.Step != b.Step {
